@@ -553,6 +553,18 @@ def pinned_tokens():
 PINNED_LOOPS = None
 
 
+_PINNED_CUTS = None
+def pinned_cuts():
+    global _PINNED_CUTS
+    if _PINNED_CUTS is None:
+        p = os.path.join(os.path.dirname(os.path.dirname(os.path.abspath(__file__))), 'contracts', 'pinned_cuts.json')
+        try:
+            _PINNED_CUTS = json.load(open(p))
+        except Exception:
+            _PINNED_CUTS = {}
+    return _PINNED_CUTS
+
+
 def pinned_loops():
     global PINNED_LOOPS
     if PINNED_LOOPS is None:
@@ -924,8 +936,18 @@ def weave_extract(ub, ex, rf, repo_root):
             else:
                 raise WeaveError('lost anchor: cut loop body %r in %s' % (anchor, alias))
             e = match_close(m, kk) + 1
+            # the assumed contract of a cut describes the loop AS IT WAS when the contract was written: its text (comments and blanks
+            # apart) is pinned, and a loop that no longer has that text is not covered by the assumption - the unit is then undecided
+            # (exit 2), never silently trusted
+            cut_text = ' '.join(re.sub(r'//[^\n]*', '', code[pos:e]).split())
+            cut_key = '%s::%s::%s#%d' % (pin_key, alias, anchor, n)
+            pc = pinned_cuts().get(cut_key)
+            # (`body-verified`: the loop body is under contract as a lifted function, rule E14; a change in it is decided there)
+            if 'body-verified' not in rest and pc is not None and pc != hashlib.sha256(cut_text.encode()).hexdigest():
+                raise WeaveError('changed cut: the loop %r of %s replaced by an assumed contract no longer has the text the assumption was written for' % (anchor, alias))
+            rec.setdefault('cut_pins', {})[cut_key] = hashlib.sha256(cut_text.encode()).hexdigest()
             edits.append(Edit(pos, e, rep, None))
-            rec['transformations'].append({'rule': 'E8', 'what': 'CUT: loop %r (%d source lines) replaced by `%s` (assumed contract)' % (
+            rec['transformations'].append({'rule': 'E8', 'what': 'CUT: loop %r (%d source lines) replaced by `%s` (assumed contract; text pinned)' % (
                 anchor, code.count('\n', pos, e) + 1, rep)})
             rec.setdefault('cuts', []).append({'loop': anchor, 'replacement': rep, 'lines': code.count('\n', pos, e) + 1})
         elif name == 'shell':
